@@ -42,7 +42,8 @@ def run(ctx, rep):
     osb, oce = own_sw[0]
     # R24a
     n = 0
-    for ub, t in fc.calls("InstanceState::update_state"):
+    ups_all = [(bb, t) for bb, t, inner, kf in fc.calls_with_closures(fx, "InstanceState::update_state")]
+    for ub, t in ups_all:
         before = osb in m.reachable(ub)
         if before:
             n += 1
@@ -106,7 +107,7 @@ def run(ctx, rep):
     df = FnCtx(d)
     rel2 = [(bb, t) for bb, t in df.calls("Vec::retain", "Vec::remove") if t.args and field_of(df.arg(t, 0)) == "instance_ownership"]
     adder(rep, d)("R24c", "a missed requested deadline releases the instance ownership", bool(rel2), "instance_ownership is not touched when a deadline is missed")
-    rep.floor("R24a", len(fc.calls("InstanceState::update_state")), 4, "update_state calls in add_reader_change")
+    rep.floor("R24a", len(ups_all), 4, "update_state calls in add_reader_change")
     # R24g: once a dispose / unregister has released the instance, the same call does not record an owner again
     alive_idx = {variant_value(fx, "ChangeKind", "Alive"), variant_value(fx, "ChangeKind", "AliveFiltered")}
     pushes = [bb for bb, t in fc.calls("Vec::push") if t.args and field_of(fc.arg(t, 0)) == "instance_ownership"]
